@@ -1949,6 +1949,14 @@ def check_verify(case):
                     out = str(e)
                 except (HarnessError, Violation):
                     raise
+                except UnicodeEncodeError as e:
+                    # a lone surrogate outside the excluded elements (Python-object plays only; a YAML file cannot
+                    # carry one): no digest exists, verify() raises while encoding - the play is not accepted.  The
+                    # statement names no error type for this input (false alarm of the thorough sweep, corrected)
+                    if not (oq[0] == "err" and oq[1] == "unencodable") and step != "fault":
+                        raise
+                    got = "refuse"
+                    out = "unencodable: %s" % e
                 except Exception as e:
                     if step != "fault":
                         raise
@@ -2989,5 +2997,7 @@ REGRESSIONS = [
                                              "dim": "list", "edit": "scalar", "graft": {"where": "top", "front": True},
                                              "frames": [["l", 5000, 0]], "pool": [S("x"), I(1)], "numbered": False,
                                              "tail_a": L(S("a")), "tail_b": L(S("b"))}),
+    # false alarm corrected (thorough sweep, VERIF_SEED=1): edited play with a lone surrogate outside the excluded elements
+    Reg("verify-edited-play-unencodable", "verify", {"a": {"m": [[{"q": "p", "s": "tasks"}, {"l": []}], [{"q": "p", "s": "vars"}, {"m": [[{"q": "p", "s": "insights_signature"}, {"q": "d", "s": "AA=="}], [{"q": "p", "s": "insights_signature_exclude"}, {"q": "d", "s": "/vars/insights_signature"}]]}]]}, "b": {"m": [[{"f": "1.0"}, {"m": [[{"q": "d", "s": "00"}, {"f": "1.0"}], [{"q": "d", "s": "0"}, {"q": "d", "s": "\ud83d"}]]}], [{"q": "p", "s": "tasks"}, {"l": []}], [{"q": "p", "s": "vars"}, {"m": [[{"q": "p", "s": "insights_signature"}, {"q": "d", "s": "AA=="}], [{"q": "p", "s": "insights_signature_exclude"}, {"q": "d", "s": "/vars/insights_signature"}]]}]]}, "mode": "py", "rev_hex": "lower", "rev_names": "unique", "revoked": ["self"]}),
     Reg("deeper-request", "exclusion", {"mode": "py", "a": M((S("vars"), M((S(EXCL), S("/vars/a/b")), (S("a"), M((S("b"), I(1)))))))}),
 ]
